@@ -16,12 +16,41 @@ class Path(object):
         self.value = value
         self.done = done  # None | 'return' | 'break' | 'continue' | 'panic'
         self.env = env if env is not None else {}
+        self.marks = {}  # condition subject -> number of effects when it was last tested on this path
 
     def fork(self, **kw):
         p = Path(self.conds, self.effects, self.value, self.done, dict(self.env))
+        p.marks = dict(self.marks)
         for k, v in kw.items():
             setattr(p, k, v)
         return p
+
+    def subject(self, s):
+        """The name under which a test of expression `s` is recorded now. An expression tested twice denotes the same value
+        only if nothing that could change it happened in between: a call in it is a new call, a place in it may have been
+        written. Otherwise the second test is about a new value and gets a primed name, so that it is neither merged with
+        nor found contradictory to the first."""
+        if not isinstance(s, str):
+            return s
+        base = s
+        while base in self.marks and self._stale(base):
+            base += "'"
+        self.marks[base] = len(self.effects)
+        return base
+
+    def _stale(self, s):
+        since = [e for e in self.effects[self.marks[s]:] if not e.startswith(('let ', 'for _ in', '}', 'loop {'))]
+        if not since:
+            return False
+        bare = s.rstrip("'")
+        has_call = re.search(r'[\w>]\(', bare) is not None
+        roots = set(re.findall(r'(?<![\w.:$])((?:self|[a-z_$][\w$]*)(?:\.[a-z_]\w*)?)(?![\w(:])', bare))
+        for e in since:
+            if has_call and (not roots or any(r_ in e for r_ in roots)):
+                return True  # the tested expression contains a call and something touching its operands happened: it is evaluated anew
+            if (' = ' in e or ' += ' in e or ' -= ' in e) and any(e.startswith(r_) or e.startswith(r_.split('.')[0] + '.') or e.startswith(r_.split('.')[0] + ' ') for r_ in roots):
+                return True  # a place it reads was written
+        return False
 
     def cond_strs(self):
         return ['%s%s' % ('' if pol is True else ('!' if pol is False else ''), c) if not isinstance(pol, str) else '%s ~ %s' % (c, pol) for c, pol in self.conds]
@@ -100,11 +129,12 @@ class Enumerator(object):
                 return  # every variant: the arm tests nothing
         cc = canon.cmp_conds(vterm, names) if names else None
         if cc is not None:
-            path.conds = canon.simplify(path.conds + cc)
+            path.conds = canon.simplify(path.conds + [(path.subject(s_), p_) for s_, p_ in cc])
         else:
-            if canon.contradictory(path.conds + [(S.show(vterm), pred)]):
+            subj = path.subject(S.show(vterm))
+            if canon.contradictory(path.conds + [(subj, pred)]):
                 path.done = 'infeasible'  # the same value was already found not to match: nothing runs on this path
-            path.conds = canon.simplify(path.conds + [(S.show(vterm), pred)])
+            path.conds = canon.simplify(path.conds + [(subj, pred)])
 
     @staticmethod
     def bool_contradiction(conds, lits):
@@ -274,6 +304,7 @@ class Enumerator(object):
                 if known != 'false':
                     for lits in (canon.branches(p.value, True) if known is None else [[]]):
                         tp = p.fork()
+                        lits = [(tp.subject(s_), p_) for s_, p_ in lits]
                         if canon.contradictory(tp.conds + lits) or self.bool_contradiction(tp.conds, lits):
                             continue
                         tp.conds = canon.simplify(tp.conds + lits)
@@ -282,6 +313,7 @@ class Enumerator(object):
                     continue  # the condition was decided by the path itself (e.g. `matches!`): no else on this path
                 for lits in (canon.branches(p.value, False) if known is None else [[]]):
                     ep = p.fork()
+                    lits = [(ep.subject(s_), p_) for s_, p_ in lits]
                     if canon.contradictory(ep.conds + lits) or self.bool_contradiction(ep.conds, lits):
                         continue
                     ep.conds = canon.simplify(ep.conds + lits)
